@@ -18,8 +18,9 @@ use url::{Host, Url};
 
 use serde::{de::DeserializeOwned, Serialize};
 
-/// Max length of HTTP responses in bytes: 1GB
-const MAX_RESPONSE_LENGTH: usize = 1024 * 1024 * 1024;
+/// Upper bound for the size of a response body after content decoding: a few kilobytes of
+/// gzip can inflate to gigabytes.
+const MAX_RESPONSE_LENGTH: usize = 8 * 1024 * 1024;
 
 /// HTTP request client. Define parameters host parameters on new, then re-use
 /// for each request.
@@ -325,6 +326,16 @@ impl HttpClient {
         Ok(buffer)
     }
 
+    /// Parse the body of a response as JSON, reading at most [MAX_RESPONSE_LENGTH] decoded bytes.
+    fn parse_json_response<T: DeserializeOwned>(http_response: ureq::Response) -> GDResult<T> {
+        serde_json::from_reader(
+            http_response
+                .into_reader()
+                .take(MAX_RESPONSE_LENGTH as u64),
+        )
+        .map_err(|e| ProtocolFormat.context(e))
+    }
+
     /// Send a HTTP request without any data and parse the JSON response.
     #[inline]
     fn request_json<T: DeserializeOwned>(&mut self, method: &str, path: &str, headers: HttpHeaders) -> GDResult<T> {
@@ -340,9 +351,8 @@ impl HttpClient {
         // Send the request and parse the response as JSON.
         request
             .call()
-            .map_err(|e| PacketSend.context(e))?
-            .into_json::<T>()
-            .map_err(|e| ProtocolFormat.context(e))
+            .map_err(|e| PacketSend.context(e))
+            .and_then(Self::parse_json_response)
     }
 
     /// Send a HTTP request with JSON data and parse the JSON response.
@@ -359,9 +369,8 @@ impl HttpClient {
 
         request
             .send_json(data)
-            .map_err(|e| PacketSend.context(e))?
-            .into_json::<T>()
-            .map_err(|e| ProtocolFormat.context(e))
+            .map_err(|e| PacketSend.context(e))
+            .and_then(Self::parse_json_response)
     }
 
     /// Send a HTTP request with FORM data and parse the JSON response.
@@ -378,9 +387,8 @@ impl HttpClient {
 
         request
             .send_form(data)
-            .map_err(|e| PacketSend.context(e))?
-            .into_json::<T>()
-            .map_err(|e| ProtocolFormat.context(e))
+            .map_err(|e| PacketSend.context(e))
+            .and_then(Self::parse_json_response)
     }
 }
 
